@@ -160,7 +160,12 @@ impl Socket for UdpSocketImpl {
             return Ok(socket);
         }
 
-        let socket = net::UdpSocket::bind("0.0.0.0:0").map_err(|e| SocketBind.context(e))?;
+        // Bind in the address family of the remote (an IPv4 socket cannot reach an IPv6 address)
+        let local_address = match address {
+            SocketAddr::V4(_) => "0.0.0.0:0",
+            SocketAddr::V6(_) => "[::]:0",
+        };
+        let socket = net::UdpSocket::bind(local_address).map_err(|e| SocketBind.context(e))?;
 
         let socket = Self {
             socket,
